@@ -5,6 +5,7 @@ import (
 	"fmt"
 	"strconv"
 	"strings"
+	"sync"
 
 	erpc "github.com/henrylee2cn/erpc/v6"
 	"github.com/henrylee2cn/erpc/v6/mixer/websocket/jsonSubProto"
@@ -13,6 +14,7 @@ import (
 	"github.com/henrylee2cn/erpc/v6/proto/jsonproto"
 	"github.com/henrylee2cn/erpc/v6/proto/pbproto"
 	"github.com/henrylee2cn/erpc/v6/socket"
+	xgzip "github.com/henrylee2cn/erpc/v6/xfer/gzip"
 
 	"verif/harness/internal/hx"
 )
@@ -22,6 +24,16 @@ import (
 // Each protocol is fed only messages inside its supported field set (DESIGN §5 C05 table).
 
 var c05xProtos = []string{"json", "pb", "http", "wsjson", "wspb"}
+
+var c05xGzipOnce sync.Once
+
+// c05xRegGzip registers the real gzip transfer filter (id 'g'): the only kind httproto supports.
+func c05xRegGzip() {
+	c05xGzipOnce.Do(func() {
+		defer func() { recover() }() // another runner of this binary may have registered it
+		xgzip.Reg('g', "gzip-5", 5)
+	})
+}
 
 func c05xFunc(name string) erpc.ProtoFunc {
 	switch name {
@@ -102,6 +114,9 @@ func c05xGenMsg(r *hx.R, proto string) *M {
 	case "http":
 		m.Mtype = byte(1 + r.Intn(2)) // request / response only
 		m.Pipe = nil                   // gzip filters only
+		if r.Intn(3) == 0 {
+			m.Pipe = []byte{'g'}
+		}
 		m.Meta = nil                   // metadata maps onto HTTP headers: exempt
 		if m.Mtype == 1 {              // a request carries no status
 			m.Code, m.Msg, m.HasCause, m.Cause = 0, nil, false, nil
@@ -159,6 +174,7 @@ func c05xSame(proto string, a, b *M) string {
 }
 
 func c05xRun(line string, f map[string]string, out *hx.Out) (string, bool) {
+	c05xRegGzip()
 	proto := f["proto"]
 	chunk, _ := strconv.Atoi(f["chunk"])
 	cseed, _ := strconv.Atoi(f["cseed"])
